@@ -187,10 +187,7 @@ func printerAgreement(ctx *common.Ctx, g *gen, n int) {
 		checked++
 		ctx.Hist("printer:checked")
 		if l[9] != nil {
-			// a string: princ-to-string keeps the quotes (known finding C15-princ-to-string-quotes); ~A is judged
-			// against princ to a stream
 			ctx.Hist("printer:string")
-			pc = str(6)
 		}
 		if a != pc {
 			ctx.Violate("~A differs from princ", e, a, pc)
